@@ -297,6 +297,132 @@ theorem dot_agrees (W : World) (f : Func) (a : Val) :
   simp [evalForm, chainKnown2, Family.run2, Family.run2Override, revApplyBodies, fwdApplyBodies, call1, app_eq,
     func_run_one]
 
+
+/-! ## 4b. sections that mix `_`, `..._`, plain arguments and `...[…]` spreads in any order -/
+
+/-- the slot list `splat_section_eval` builds for a mixed pattern -/
+def mixSlots : List Mix → List Val → List Slot
+  | [], _ => []
+  | .lit k :: ps, args => (args.take k).map .val ++ mixSlots ps (args.drop k)
+  | .spread k :: ps, args => (args.take k).map .val ++ mixSlots ps (args.drop k)
+  | .hole :: ps, args => .hole false :: mixSlots ps (args.drop 1)
+  | .spreadHole k :: ps, args => .hole true :: mixSlots ps (args.drop k)
+
+theorem sse_vals_then (W : World) (xs acc : List Val) (rest : List ArgE) :
+    splatSectionEval W (xs.map .val ++ rest) (.inl acc) = splatSectionEval W rest (.inl (acc ++ xs)) := by
+  induction xs generalizing acc with
+  | nil => simp
+  | cons x xs ih => simp [splatSectionEval, ih]
+
+theorem sse_vals_then_inr (W : World) (xs : List Val) (acc : List Slot) (rest : List ArgE) :
+    splatSectionEval W (xs.map .val ++ rest) (.inr acc) = splatSectionEval W rest (.inr (acc ++ xs.map .val)) := by
+  induction xs generalizing acc with
+  | nil => simp
+  | cons x xs ih => simp [splatSectionEval, ih]
+
+/-- once a placeholder has been seen, every later piece — in particular a `...[…]` spread — is
+appended to the slot list element by element -/
+theorem sse_mix_inr (W : World) (pat : List Mix) (args : List Val) (acc : List Slot) :
+    splatSectionEval W (mixBuild pat args).1 (.inr acc) = .ok (.inr (acc ++ mixSlots pat args)) := by
+  induction pat generalizing args acc with
+  | nil => simp [mixBuild, mixSlots, splatSectionEval]
+  | cons p ps ih =>
+    cases p with
+    | lit k =>
+      simp only [mixBuild, mixSlots]
+      rw [sse_vals_then_inr, ih, List.append_assoc]
+    | spread k =>
+      simp only [mixBuild, mixSlots, splatSectionEval, iterVal]
+      rw [ih, List.append_assoc]
+    | hole => simp [mixBuild, mixSlots, splatSectionEval, ih]
+    | spreadHole k => simp [mixBuild, mixSlots, splatSectionEval, ih]
+
+/-- before the first placeholder the pieces are plain values; the first placeholder turns the
+accumulated values into filled slots -/
+theorem sse_mix_inl (W : World) (pat : List Mix) (args acc : List Val) (h : pat.any Mix.isHole = true) :
+    splatSectionEval W (mixBuild pat args).1 (.inl acc) = .ok (.inr (acc.map .val ++ mixSlots pat args)) := by
+  induction pat generalizing args acc with
+  | nil => simp at h
+  | cons p ps ih =>
+    cases p with
+    | lit k =>
+      have h' : ps.any Mix.isHole = true := by simpa [Mix.isHole] using h
+      simp only [mixBuild, mixSlots]
+      rw [sse_vals_then, ih _ _ h', List.map_append, List.append_assoc]
+    | spread k =>
+      have h' : ps.any Mix.isHole = true := by simpa [Mix.isHole] using h
+      simp only [mixBuild, mixSlots, splatSectionEval, iterVal]
+      rw [ih _ _ h', List.map_append, List.append_assoc]
+    | hole => simp [mixBuild, mixSlots, splatSectionEval, sse_mix_inr]
+    | spreadHole k => simp [mixBuild, mixSlots, splatSectionEval, sse_mix_inr]
+
+theorem applySection_vals_then (W : World) (vs : List Val) (rest : List Slot) (args : List Val) :
+    applySection W (vs.map .val ++ rest) args = (applySection W rest args).map (vs ++ ·) := by
+  induction vs with
+  | nil => cases h : applySection W rest args <;> simp [Out.map, h]
+  | cons v vs ih =>
+    simp only [List.map_cons, List.cons_append, applySection, ih]
+    cases h : applySection W rest args <;> simp [Out.map]
+
+/-- filling the slots of a mixed pattern with the second call's arguments restores the tuple -/
+theorem applySection_mix (W : World) (pat : List Mix) (args : List Val) (h : mixSize pat = args.length) :
+    applySection W (mixSlots pat args) (mixBuild pat args).2 = .ok args := by
+  induction pat generalizing args with
+  | nil =>
+    have : args = [] := by simpa [mixSize] using h.symm
+    subst this; simp [mixSlots, applySection]
+  | cons p ps ih =>
+    cases p with
+    | lit k =>
+      have hk : mixSize ps = (args.drop k).length := by simp [mixSize] at h; simp; omega
+      simp only [mixSlots, mixBuild]
+      rw [applySection_vals_then, ih _ hk]
+      simp [Out.map]
+    | spread k =>
+      have hk : mixSize ps = (args.drop k).length := by simp [mixSize] at h; simp; omega
+      simp only [mixSlots, mixBuild]
+      rw [applySection_vals_then, ih _ hk]
+      simp [Out.map]
+    | hole =>
+      cases args with
+      | nil => simp [mixSize] at h
+      | cons a rest =>
+        have hk : mixSize ps = rest.length := by simp [mixSize] at h; omega
+        simp [mixSlots, mixBuild, applySection, ih _ hk, Out.map]
+    | spreadHole k =>
+      have hk : mixSize ps = (args.drop k).length := by simp [mixSize] at h; simp; omega
+      simp [mixSlots, mixBuild, applySection, iterVal, ih _ hk, Out.map]
+
+/-- `f(_, ...[b, c])(a)`, `f(...[a], _, c)(b)`, `f(..._, c)([a, b])`, `f(_, ...[], b)(a)` …: every
+call section that mixes placeholders, spread placeholders, plain arguments and spreads, in any
+order and at any arity, denotes the plain call -/
+theorem mixed_section_agrees (W : World) (f : Func) (pat : List Mix) (args : List Val)
+    (hs : mixSize pat = args.length) (hh : pat.any Mix.isHole = true) :
+    evalForm W (.secMix pat) f args = app W f args := by
+  have h1 := sse_mix_inl W pat args [] hh
+  simp only [List.map_nil, List.nil_append] at h1
+  have h2 := sse_vals W (mixBuild pat args).2 []
+  simp only [List.nil_append] at h2
+  simp only [evalForm, evalCall, h1, bind_ok, h2, callOrPartApply, Func.run, applySection_mix W pat args hs, app_eq]
+
+/-- the same for list sections: `[_, ...[b, c]](a)` is the list `[a, b, c]` -/
+theorem mixed_list_section (W : World) (f : Func) (pat : List Mix) (args : List Val)
+    (hs : mixSize pat = args.length) (hh : pat.any Mix.isHole = true) :
+    evalForm W (.listMix pat) f args = .ok (.list args) := by
+  have h1 := sse_mix_inl W pat args [] hh
+  simp only [List.map_nil, List.nil_append] at h1
+  have h2 := sse_vals W (mixBuild pat args).2 []
+  simp only [List.nil_append] at h2
+  simp only [evalForm, evalList, evalCall, h1, bind_ok, h2, callOrPartApply, Func.run,
+    applySection_mix W pat args hs, map_ok]
+
+/-- non-vacuity, and the exact case of the follow-up: a spread AFTER a placeholder is spread -/
+example (W : World) (f : Func) (a b c : Val) :
+    evalForm W (.secMix [.hole, .spread 2]) f [a, b, c] = app W f [a, b, c] ∧
+    (mixBuild [.hole, .spread 2] [a, b, c]).1 = [.under, .splat (.list [b, c])] ∧
+    evalForm W (.secMix [.spreadHole 2, .lit 1]) f [a, b, c] = app W f [a, b, c] :=
+  ⟨mixed_section_agrees W f _ _ rfl rfl, rfl, mixed_section_agrees W f _ _ rfl rfl⟩
+
 /-! ## 5. one-argument calls are right sections -/
 
 /-- the family's own guard decides the partial-application arm, and the wrapper it builds -/
@@ -403,7 +529,7 @@ theorem right_section_needs_guard : ¬ right_section_statement := by
       callDyn := fun _ _ => .throw, chainN := fun _ _ => .throw, other := fun _ _ => .throw }
   have := h W (.closure 0) (.atom .num 1) (.atom .num 2)
     ⟨rfl, ⟨⟨.closure 1, rfl⟩, ⟨.atom .num 1, rfl⟩⟩⟩
-  simp [evalForm, evalCall, splatSectionEval, callOrPartApply, Func.run, app, call, W] at this
+  simp [evalForm, evalCall, splatSectionEval, callOrPartApply, Func.run, app, call, denotes, W] at this
 
 /-! ## 6. the property: all forms agree, for every callable -/
 
@@ -414,6 +540,8 @@ theorem forms_agree (W : World) (form : Form) (f : Func) (args : List Val) (hf :
   intro hp
   obtain ⟨hlen, hside⟩ := hp
   cases form with
+  | secMix pat => exact mixed_section_agrees W f pat args hside.1 hside.2
+  | listMix pat => exact mixed_list_section W f pat args hside.1 hside.2
   | call => exact (call_agrees W f args).1
   | bang => exact (call_agrees W f args).2
   | infixOp =>
@@ -455,7 +583,7 @@ theorem forms_agree (W : World) (form : Form) (f : Func) (args : List Val) (hf :
   | splatAll =>
     cases args with
     | nil =>
-      simp [evalForm, evalList, splatSectionEval, evalCall, iterVal, callOrPartApply, app, call]
+      simp [evalForm, evalList, splatSectionEval, evalCall, iterVal, callOrPartApply, app, call, denotes]
     | cons a rest => exact (splat_agrees W f a rest).1
   | splatTail =>
     cases args with
